@@ -552,6 +552,11 @@ func checkAbs(c AbsCase) vk.Verdict {
 			switch op {
 			case "set":
 				sess.Set("a", fmt.Sprintf("v%d_%d", step, j))
+			case "clear":
+				// "empty the session": delete every key the session reports
+				for _, k := range sess.Keys() {
+					sess.Delete(k)
+				}
 			case "reset":
 				if err := sess.Reset(); err != nil {
 					herr = err.Error()
@@ -666,6 +671,8 @@ func checkAbs(c AbsCase) vk.Verdict {
 			switch op {
 			case "set":
 				m.a = fmt.Sprintf("v%d_%d", i, j)
+			case "clear":
+				m.a = "" // the data is gone; it is still the same session with the same deadline
 			case "reset":
 				// a reset session is a new session: new id, no data, a deadline of its own
 				delete(model, cur)
@@ -719,9 +726,9 @@ var propAbs = vk.Register(&vk.Prop[AbsCase]{Property: property, Name: "absolute"
 			st := AbsStep{Wait: rapid.SampledFrom([]int{1, 1, 2}).Draw(t, "wait")}
 			k := rapid.IntRange(0, 2).Draw(t, "nops")
 			for j := 0; j < k; j++ {
-				pool := []string{"set", "set", "reset", "regen"}
+				pool := []string{"set", "set", "reset", "regen", "clear"}
 				if j == 0 {
-					pool = []string{"set", "reget", "reget", "reset", "regen"} // reget only counts as the first operation
+					pool = []string{"set", "reget", "reget", "reset", "regen", "clear"} // reget only counts as the first operation
 				}
 				st.Ops = append(st.Ops, rapid.SampledFrom(pool).Draw(t, "op"))
 			}
